@@ -1083,7 +1083,11 @@ def _contains_raise(stmt) -> bool:
 
 def trace_entry(fn, helpers_by_name, cls=None, depth=0, ent: Entry | None = None, seen=None) -> bool:
     """walk the statements of fn in execution order (both branches of an `if`); returns False when
-    the walk was stopped by the first arithmetic statement."""
+    the walk was stopped by the first arithmetic statement.  A guard counts when NO path to it crosses arithmetic:
+    a branch that falls into the statements below after arithmetic stops the walk, a branch that `return`s its
+    arithmetic does not (the statements below are reached along the other branch only), so that
+    `if a: return f(x) * 2` / `raise E` is counted like `if a: return f(x) * 2 else: raise E`; for the caller a
+    function that returned after arithmetic on some path is arithmetic."""
     node = _fn_ast(fn)
     seen = seen if seen is not None else set()
     if node is None or depth > 4 or fn in seen:
@@ -1121,10 +1125,16 @@ def trace_entry(fn, helpers_by_name, cls=None, depth=0, ent: Entry | None = None
                     return "stop"
         return "resolved" if resolved else "none"
 
-    def walk(stmts) -> str:          # 'cont' | 'ret' | 'stop'
+    tainted = [False]                # some path RETURNED after arithmetic (the caller's rest comes after arithmetic)
+
+    def walk(stmts) -> str:          # 'cont' | 'ret' | 'aret' (returned after arithmetic) | 'stop'
         for s in stmts:
             if isinstance(s, ast.Expr) and isinstance(s.value, ast.Constant):
                 continue
+            if isinstance(s, ast.Raise):
+                # an unconditional `raise` reached without arithmetic: the `else: raise` of a chain written as guard clauses
+                ent.inline += 1
+                return "ret"
             if isinstance(s, ast.Assert) or (isinstance(s, ast.If) and _contains_raise(s)):
                 ent.inline += sum(1 for n in ast.walk(s) if isinstance(n, (ast.Raise, ast.Assert)))
                 if isinstance(s, ast.If) and calls_of(s) == "stop":
@@ -1137,24 +1147,28 @@ def trace_entry(fn, helpers_by_name, cls=None, depth=0, ent: Entry | None = None
                 rs = [walk(s.body), walk(s.orelse)]
                 if "stop" in rs:
                     return "stop"
-                if rs[0] == "ret" and rs[1] == "ret":
-                    return "ret"
-                continue
+                if "cont" in rs:
+                    # a branch that RETURNS its arithmetic does not reach the statements below: the walk goes on along
+                    # the other branch (guard clauses with early returns = the if/elif/else chain)
+                    tainted[0] = tainted[0] or "aret" in rs
+                    continue
+                return "aret" if "aret" in rs else "ret"
             r = calls_of(s)
+            if isinstance(s, ast.Return):
+                if r == "stop" or (r == "none" and s.value is not None and _arith(s)):
+                    if ent.stopped_at is None:
+                        ent.stopped_at = ast.unparse(s).split("\n")[0][:80]
+                    return "aret"
+                return "ret"
             if r == "stop":
                 return "stop"
-            if isinstance(s, ast.Return):
-                if r == "none" and s.value is not None and _arith(s):
-                    ent.stopped_at = ast.unparse(s).split("\n")[0][:80]
-                    return "stop"
-                return "ret"
             if r == "none" and _arith(s):
                 ent.stopped_at = ast.unparse(s).split("\n")[0][:80]
                 return "stop"
         return "cont"
 
     r = walk(node.body)
-    if r == "stop":
+    if r in ("stop", "aret") or tainted[0]:
         return False
     if depth == 0 and ent.stopped_at is None:
         ent.stopped_at = "(end of function)"
